@@ -112,7 +112,7 @@ Chain2 ==
     IN <<Cap(b2), e2>>
 
 Alpha == IF ig = "none" THEN <<a, b, c3>> ELSE IF ig \in {"both", "bothanon"} THEN <<a, b, c3, sp, dash>> ELSE <<a, b, c3, sp>>
-Texts == TextSeqUpTo(Alpha, IF Tier = "quick" THEN 3 ELSE 4)
+Texts == TextSeqUpTo(Alpha, IF Tier = "quick" \/ ig # "none" THEN 3 ELSE 4)     \* (length 4 over 5 letters made the thorough instance run for an hour)
          \o << <<a, b, b, 33>>, <<a, c3, b, b>>, <<b, b, a, c3>>, <<a, c3, b, 33>>, <<a, a, b, a>>, <<c3, c3, a>>,
                <<35, a, 33>>, <<35, 36, a, 33>>, <<35, 36, 36, a>>, <<35, c3>>, <<35, 36, c3, 33>>, <<35, 36, a, c3, 33>>,
                <<35, 36, 36, a, c3>>, <<37, a>>, <<37, c3>>, <<37, a, c3, 37>>, <<37, a, 37>>, <<37, c3, 37, a>> >>
